@@ -2,14 +2,14 @@
    well-formed entries. Statements only; proofs in Proofs/AmmoSafetyProofs.v,
    Proofs/AmmoPrefixProofs.v, Proofs/AmmoRobustProofs.v, Proofs/AmmoConfigInputProofs.v,
    Proofs/AmmoJsonRejectProofs.v, Proofs/AmmoVarSourceProofs.v,
-   Proofs/AmmoConfigValueProofs.v. Every theorem about a decoder
+   Proofs/AmmoConfigValueProofs.v, Proofs/AmmoHostileConfigProofs.v. Every theorem about a decoder
    quantifies over ALL byte strings (no well-formedness hypothesis) and over the third-party
    parser oracles. *)
 From Coq Require Import List NArith ZArith Bool.
 From PV Require Import Lib.AmmoBytes Lib.AmmoDecimal Lib.AmmoLines Model.AmmoCommon Model.AmmoUri
-  Model.AmmoUripost Model.AmmoRaw Model.AmmoJson Model.AmmoRobust Model.AmmoConfigInput Model.AmmoJsonReject Model.AmmoVarSource Model.AmmoConfigValue
+  Model.AmmoUripost Model.AmmoRaw Model.AmmoJson Model.AmmoRobust Model.AmmoConfigInput Model.AmmoJsonReject Model.AmmoVarSource Model.AmmoConfigValue Model.AmmoHostileConfig
   Proofs.AmmoSafetyProofs Proofs.AmmoPrefixProofs Proofs.AmmoRobustProofs Proofs.AmmoConfigInputProofs
-  Proofs.AmmoJsonRejectProofs Proofs.AmmoVarSourceProofs Proofs.AmmoConfigValueProofs.
+  Proofs.AmmoJsonRejectProofs Proofs.AmmoVarSourceProofs Proofs.AmmoConfigValueProofs Proofs.AmmoHostileConfigProofs.
 Import ListNotations.
 
 (* [bad r] = the Scan ended in a panic or ran out of fuel. The fuel of every loop is linear
@@ -428,4 +428,129 @@ Print Assumptions C13_config_value_wrapping_refuted.
 Example C13_config_value_examples :
   cast_int true 8 200 = Some 200%Z /\ cast_int true 8 300 = None /\ cast_int false 8 200 = None /\
   cast_int true 64 18446744073709551615 = Some 18446744073709551615%Z /\ cast_int false 64 (-1) = Some (-1)%Z.
+Proof. repeat split; vm_compute; reflexivity. Qed.
+
+(* ---------- round 7: hostile numeric options of a provider, descriptions that are not HCL / YAML at all ---------- *)
+
+(* the http providers (uri, uripost, raw, http/json) for EVERY value of limit / passes / maxammosize the config
+   decoder can hand over: construction never panics and reserves no memory from those numbers *)
+Theorem C13_http_provider_options_no_panic :
+  forall limit passes max : Z,
+    http_provider_opts false limit passes max <> VPanic /\
+    (forall n, http_provider_opts false limit passes max = VOk n -> n = 0%Z).
+Proof. exact (fun l p m => conj (http_provider_opts_no_panic l p m) (http_provider_opts_reserves_nothing l p m)). Qed.
+Print Assumptions C13_http_provider_options_no_panic.
+
+(* a negative limit or passes is rejected by every provider: unsigned fields (http/*, */scenario) and the
+   validated int fields of grpc/json *)
+Theorem C13_negative_limit_or_passes_rejected :
+  forall (f : ofield) (z : Z), f <> OInt -> (z < 0)%Z -> opt_accept f z = None.
+Proof. exact opt_accept_negative_rejected. Qed.
+Print Assumptions C13_negative_limit_or_passes_rejected.
+
+Theorem C13_provider_rejects_negative_limit_or_passes :
+  forall unmarshal cont (limit passes max : Z) k file,
+    (limit < 0 \/ passes < 0)%Z ->
+    http_provider_opts false limit passes max = VErr /\
+    grpc_provider unmarshal cont limit passes max k file = None.
+Proof.
+  exact (fun u c l p m k f H => conj (http_provider_opts_negative_rejected l p m H)
+                                      (grpc_provider_negative_rejected u c l p m k f H)).
+Qed.
+Print Assumptions C13_provider_rejects_negative_limit_or_passes.
+
+(* an accepted option value is the number written *)
+Theorem C13_option_value_exact :
+  forall f z v, opt_accept f z = Some v -> v = z /\ (int_min <= z <= uint_max)%Z.
+Proof. exact opt_accept_exact. Qed.
+Print Assumptions C13_option_value_exact.
+
+(* the same scanner set up with a buffer ALLOCATED from the option (make([]byte, 0, max)) panics for every
+   negative and every absurdly large value: the statement above is false of that code *)
+Theorem C13_scanner_buffer_from_option_refuted :
+  forall max : Z, (max < 0 \/ max_alloc < max)%Z -> max <> 0%Z -> scanner_setup true max = VPanic.
+Proof. exact scanner_setup_prealloc_panics. Qed.
+Print Assumptions C13_scanner_buffer_from_option_refuted.
+
+(* grpc/json, negative maxammosize: an error at once for every file, nothing delivered, no panic *)
+Theorem C13_grpcjson_negative_max_ammo_size :
+  forall unmarshal cont (limit passes max : Z) k file rs,
+    (max < 0)%Z -> grpc_provider unmarshal cont limit passes max (S k) file = Some rs -> rs = [PErr].
+Proof. exact grpc_provider_negative_max. Qed.
+Print Assumptions C13_grpcjson_negative_max_ammo_size.
+
+(* grpc/json, EVERY maxammosize (any sign, any magnitude), limit and passes: the lines in front of the first line
+   the limit refuses are delivered exactly as under the default limit — a too-long line or a hostile limit never
+   alters how the entries before it are delivered *)
+Theorem C13_grpcjson_max_ammo_size_keeps_prefix :
+  forall unmarshal cont (limit passes max : Z) m (a b : list bytes) k,
+    scan_limit max = Some m ->
+    forallb (fun l => N.ltb (nlen l) m) a = true ->
+    forallb (fun l => N.ltb (nlen l) max_token) a = true ->
+    (k <= length a)%nat ->
+    (let '(ls, e) := cap_lines m (a ++ b) in grpc_run_opts unmarshal cont limit passes k ls e 0 1 ls) =
+    (let '(ls, e) := cap_lines max_token (a ++ b) in grpc_run_opts unmarshal cont limit passes k ls e 0 1 ls).
+Proof. exact grpc_max_ammo_size_prefix. Qed.
+Print Assumptions C13_grpcjson_max_ammo_size_keeps_prefix.
+
+(* the pass loop with Limit / Passes / MaxAmmoSize never produces more than it was asked for (each step of the
+   model is one Acquire: no pass repeats without delivering) *)
+Theorem C13_grpcjson_options_no_spin :
+  forall unmarshal cont (limit passes : Z) k all e ammo pass left,
+    (length (grpc_run_opts unmarshal cont limit passes k all e ammo pass left) <= k)%nat.
+Proof. exact grpc_run_opts_length. Qed.
+Print Assumptions C13_grpcjson_options_no_spin.
+
+(* a description the HCL parser reports errors for is rejected — whatever the error-recovering parser returned
+   as the file, whatever the later stages would make of it; the same for a text yaml.Unmarshal refuses *)
+Theorem C13_syntax_error_rejected :
+  forall (A : Type) (hcl : bytes -> hcl_parse A) yaml decode text,
+    (hp_errors (hcl text) = true -> read_description A true FHcl hcl yaml decode text = VErr) /\
+    (forall f, f = FYaml \/ f = FYml -> yaml text = None -> read_description A true f hcl yaml decode text = VErr).
+Proof.
+  exact (fun A hcl yaml decode text => conj (hcl_syntax_error_rejected A hcl yaml decode text)
+                                            (fun f => yaml_syntax_error_rejected A f hcl yaml decode text)).
+Qed.
+Print Assumptions C13_syntax_error_rejected.
+
+Theorem C13_hcl_accepted_iff_syntax_ok_and_decoded :
+  forall (A : Type) (hcl : bytes -> hcl_parse A) yaml decode text cs,
+    read_description A true FHcl hcl yaml decode text = VOk cs <->
+    hp_errors (hcl text) = false /\ exists a, hp_file (hcl text) = Some a /\ decode a = VOk cs.
+Proof. exact hcl_accepted_iff. Qed.
+Print Assumptions C13_hcl_accepted_iff_syntax_ok_and_decoded.
+
+Theorem C13_description_syntax_stage_no_panic :
+  forall (A : Type) f (hcl : bytes -> hcl_parse A) yaml decode text,
+    (forall t, hp_errors (hcl t) = false -> hp_file (hcl t) <> None) ->
+    (forall a, decode a <> VPanic) ->
+    read_description A true f hcl yaml decode text <> VPanic.
+Proof. exact read_description_no_panic. Qed.
+Print Assumptions C13_description_syntax_stage_no_panic.
+
+(* with the nil check in place of the diagnostics the statement is false *)
+Theorem C13_hcl_nil_check_refuted :
+  exists (hcl : bytes -> hcl_parse unit) text,
+    hp_errors (hcl text) = true /\
+    read_description unit false FHcl hcl (fun _ => None) (fun _ => VOk [1%Z]) text = VOk [1%Z].
+Proof. exact hcl_nil_check_refuted. Qed.
+Print Assumptions C13_hcl_nil_check_refuted.
+
+Example C13_hostile_config_examples :
+  (* maxammosize -1 / MaxInt64 on an http provider: constructed, nothing reserved; as a preallocated buffer: panic *)
+  http_provider_opts false 0 0 (-1) = VOk 0%Z /\ http_provider_opts false 0 0 9223372036854775807 = VOk 0%Z /\
+  http_provider_opts true 0 0 (-1) = VPanic /\ http_provider_opts true 0 0 9223372036854775807 = VPanic /\
+  http_provider_opts true 0 0 4096 = VOk 4096%Z /\
+  (* limit -1: rejected; limit 2^64: rejected; 2^64 - 1: accepted *)
+  http_provider_opts false (-1) 0 0 = VErr /\ http_provider_opts false 18446744073709551616 0 0 = VErr /\
+  http_provider_opts false 18446744073709551615 0 0 = VOk 0%Z /\
+  (* grpc/json on the lines "ab", "abcdef": maxammosize 3 admits the first line only; 7 both; passes 1 ends the run *)
+  grpc_provider (fun l => Some (l, [])) false 0 0 3 4 [97; 98; 10; 97; 98; 99; 100; 101; 102; 10]%N
+    = Some [PDeliver [97; 98]%N []; PErr] /\
+  grpc_provider (fun l => Some (l, [])) false 0 1 7 4 [97; 98; 10; 97; 98; 99; 100; 101; 102; 10]%N
+    = Some [PDeliver [97; 98]%N []; PDeliver [97; 98; 99; 100; 101; 102]%N []; PDone] /\
+  grpc_provider (fun l => Some (l, [])) false 1 0 0 4 [97; 98; 10; 97; 98; 99; 100; 101; 102; 10]%N
+    = Some [PDeliver [97; 98]%N []; PDone] /\
+  grpc_provider (fun l => Some (l, [])) false 0 0 (-5) 4 [97; 98; 10]%N = Some [PErr] /\
+  grpc_provider (fun l => Some (l, [])) false (-1) 0 0 4 [97; 98; 10]%N = None.
 Proof. repeat split; vm_compute; reflexivity. Qed.
